@@ -135,7 +135,7 @@ def dense_adjoint(gold, gnew):
 
 
 # --------------------------------------------------------------- pair oracle
-def check_pair(gold, gnew, tag, viol, adjoint=True):
+def check_pair(gold, gnew, tag, viol, adjoint=True, kinds=('geo', 'rnd')):
     """All oracles for one (old grid, new grid); returns (compared, info)."""
     import discretize
     from emg3d import maps
@@ -149,7 +149,8 @@ def check_pair(gold, gnew, tag, viol, adjoint=True):
                      'expected': exp})
 
     F = dense_forward(gold, gnew)
-    Fref = volavg.matrix_3d(on, nn_)
+    w3 = volavg.weights_3d(on, nn_)
+    Fref = volavg.matrix_3d(on, nn_, w3)
     compared += F.size
     err = np.abs(F - Fref).max()
     if not err <= 1e-13:
@@ -197,7 +198,7 @@ def check_pair(gold, gnew, tag, viol, adjoint=True):
                 f' vs F^T: {ae:.2e}')
 
     # value profiles: linear and log mode
-    for kind in ('geo', 'rnd'):
+    for kind in kinds:
         v = profile(so, kind, (so, sn))
         vkeep = v.copy()
         with np.errstate(all='ignore'):
@@ -212,9 +213,9 @@ def check_pair(gold, gnew, tag, viol, adjoint=True):
             bad('result-has-wrong-shape', f'{lin.shape} / {log.shape}', None,
                 sn)
             continue
-        linref = volavg.apply_3d(on, nn_, v)
+        linref = volavg.apply_3d(on, nn_, v, w3)
         lv = np.log10(v)
-        logexp = volavg.apply_3d(on, nn_, lv)
+        logexp = volavg.apply_3d(on, nn_, lv, w3)
         logref = 10.0**logexp
         compared += 3*lin.size
         e = np.abs(lin - linref).max()/v.max()
@@ -273,7 +274,11 @@ def all_subsets(npts):
 # -------------------------------------------------------------------- pairs1d
 def cases_pairs1d(tier):
     sets = all_subsets(7 if tier == 'quick' else 9)
-    return [{'old': a, 'new': b} for a in sets for b in sets]
+    # value profiles per direction: quick x: geo, y: rnd, z: geo;
+    # thorough: both in x, rnd in y, geo in z
+    kinds = ('geo', 'rnd', 'geo') if tier == 'quick' else \
+        ('geo', 'rnd', 'geo', 'rnd')
+    return [{'old': a, 'new': b, 'kinds': kinds} for a in sets for b in sets]
 
 
 def case_pairs1d(c):
@@ -290,7 +295,9 @@ def case_pairs1d(c):
                 old[dd] = nodes_of(PASSIVE[k][0], dd)
                 new[dd] = nodes_of(PASSIVE[k][1], dd)
             gold, gnew = mesh_from_nodes(old), mesh_from_nodes(new)
-            n, rel = check_pair(gold, gnew, f'direction {"xyz"[d]}', viol)
+            n, rel = check_pair(gold, gnew, f'direction {"xyz"[d]}', viol,
+                                kinds=c.get('kinds', ('geo', 'rnd'))[d::3]
+                                or ('geo',))
             compared += n
             rels.append(rel[d])
     return {'viol': viol, 'compared': compared, 'transitions': 3,
@@ -481,7 +488,9 @@ def run(ctx):
         "12-cell half-step grids) selected 1-D pairs per direction",
         "values: unit basis (the complete matrix of the linear map, hence "
         "all values in linear mode), and two positive profiles over 1e-4 .. "
-        "1e4 (deterministic and seeded) in log mode",
+        "1e4 (deterministic 'geo' and seeded 'rnd') in linear and log mode "
+        "(pairs3d: both; pairs1d: geo in x and z, rnd in y, thorough also "
+        "rnd in x)",
         "tolerances: 1e-13 absolute on matrix entries (weights in [0, 1]), "
         "1e-12 relative on log-mode results and integrals",
         "Model.interpolate_to_grid: property_x/y/z must give the same "
